@@ -293,6 +293,10 @@ impl<'a> Driver<'a> {
     pub fn reset(&mut self) {
         self.ids.clear();
         self.pool.clear();
+        // one long content per run (a message or header of 64 KiB and more: the expand_message input has no bound)
+        let t = self.rng.next();
+        let big = [65535usize, 65536, 70000][self.rng.below(3)];
+        self.pool.push(prg(self.seed, "big-content", t, 0, big));
         self.keys.clear();
         self.objs.clear();
         self.log("Reset", json!({"x": 0}), "Ok", 0, json!({}));
